@@ -643,6 +643,9 @@ func cmdSearch3(seed uint64, n int) {
 		jobs = append(jobs, job{kind: "X3", cfg: "-", data: d})
 		descs = append(descs, "seed:"+hx.Hex(d))
 	}
+	sj, sd := seedJobs()
+	jobs = append(jobs, sj...)
+	descs = append(descs, sd...)
 	res := runJobs(jobs, nprocs())
 	for i, rs := range res {
 		if rs == "OK" {
